@@ -359,6 +359,30 @@ func c11(c *Ctx) {
 				"the authentication gate itself proposes an entry ("+bad+"), i.e. a request that was not (yet) authenticated changes replicated state — e.g. deleting a session after a number of wrong secrets lets anybody delete any session")
 		}
 	}
+	// ---------- H1e: "no such session" and "not yet seen" are verdicts of the replicated state: the gates never produce them
+	// themselves (e.g. from a node-local cache of ids that were answered with 404 once)
+	for _, gate := range []*load.FuncInfo{sess, sop} {
+		if gate == nil || gate.Body() == nil {
+			continue
+		}
+		gi := gate.Info()
+		for _, rv := range c.Graph(gate).Returns() {
+			rs := rv.Node.(*ast.ReturnStmt)
+			for _, res := range rs.Results {
+				bad := refersTo(gi, res, pathIrcsrv, "ErrNoSuchSession") || refersTo(gi, res, pathIrcsrv, "ErrSessionNotYetSeen")
+				if bad {
+					r.Fail("C11.H1", gate.Name(), "the gate does not decide by itself that a session does not exist", c.P.Pos(rs.Pos()),
+						"the gate returns "+astx.Str(res)+" itself instead of handing on what the IRC server answered: a node-local memory of refused ids turns one wrong secret (or a request that arrived before the session was applied) into 'No such session' for the legitimate owner of a live session")
+				}
+			}
+		}
+	}
+	// ---------- H1d: the look-ups the gate relies on hand their errors on correctly
+	for _, name := range []string{"ircserver.(*IRCServer).GetAuth", "ircserver.(*IRCServer).GetSession", "ircserver.(*IRCServer).getSessionLocked"} {
+		if fi := c.P.Func(name); fi != nil && fi.Body() != nil {
+			c.errorDiscipline("C11.H1", fi, "a session that does not exist is reported with a secret (the empty one), or an existing session is refused")
+		}
+	}
 	// ---------- H2b: what the client's JSON body is decoded into is never itself the entry that gets proposed (a body that
 	// is decoded on top of a pre-filled robust.Message can overwrite Session and Type)
 	for fi := range pubReach {
